@@ -255,6 +255,20 @@ func genReq(t *rapid.T, spec *SysSpec, prof IngressProfile) *ReqSpec {
 		if len(m.RemoteIPs) > 0 && rapid.IntRange(0, 2).Draw(t, "remote.entry?") != 0 {
 			rs.Remote = map[string]string{"198.51.100.0/24": "198.51.100.7:4000", "2001:db8::/32": "[2001:db8::9]:4000", "192.0.2.0/24": "192.0.2.44:4000",
 				"203.0.113.0/24": "203.0.113.9:4000", "10.9.0.0/16": "10.9.3.3:4000"}[m.RemoteIPs[rapid.IntRange(0, len(m.RemoteIPs)-1).Draw(t, "remote.entry")]]
+			// the same peer as a dual-stack listener reports it (IPv4-mapped), the last address of the
+			// prefix, and the first address past it
+			switch rapid.IntRange(0, 5).Draw(t, "remote.shape") {
+			case 0:
+				if !strings.HasPrefix(rs.Remote, "[") {
+					rs.Remote = "[::ffff:" + rs.Remote[:strings.LastIndex(rs.Remote, ":")] + "]" + rs.Remote[strings.LastIndex(rs.Remote, ":"):]
+				}
+			case 1:
+				rs.Remote = map[string]string{"198.51.100.7:4000": "198.51.100.255:1", "[2001:db8::9]:4000": "[2001:db8:ffff:ffff:ffff:ffff:ffff:ffff]:65535", "192.0.2.44:4000": "192.0.2.0:4000",
+					"203.0.113.9:4000": "[::ffff:203.0.113.255]:4000", "10.9.3.3:4000": "10.9.255.255:4000"}[rs.Remote]
+			case 2:
+				rs.Remote = map[string]string{"198.51.100.7:4000": "198.51.101.0:4000", "[2001:db8::9]:4000": "[2001:db9::]:4000", "192.0.2.44:4000": "[::ffff:192.0.3.0]:4000",
+					"203.0.113.9:4000": "203.0.112.255:4000", "10.9.3.3:4000": "10.10.0.0:4000"}[rs.Remote]
+			}
 		}
 		for _, kv := range m.Headers {
 			rs.Headers = append(rs.Headers, kv)
@@ -499,6 +513,25 @@ func GenIngressProgram(t *rapid.T, prof IngressProfile) *Program {
 				sg.Replay = 1
 				again.Sign = &sg
 				p.Steps = append(p.Steps, Step{Op: "ingress", Req: &again})
+			}
+			if prof.Replay && rq.Sign != nil && rq.Sign.Replay == 0 && rq.Route < len(cur.Routes) && cur.Routes[rq.Route].HMAC != nil && rapid.IntRange(0, 11).Draw(t, "stagger?") == 0 {
+				// expiry instants out of arrival order: X signed now, A signed almost a tolerance ago
+				// (its entry lapses first although it arrived second), A's nonce used again by B once A
+				// has lapsed, then - when X has lapsed and B has not - B once more
+				tol := hmacTolerance(cur.Routes[rq.Route].HMAC)
+				d1 := rapid.SampledFrom([]time.Duration{time.Second, 5 * time.Second, time.Minute}).Draw(t, "stagger.d1")
+				if d1 >= tol {
+					d1 = time.Second
+				}
+				mk := func(nonce string, off time.Duration, replay int) Step {
+					c := *rq
+					sg := *rq.Sign
+					sg.Nonce, sg.TSOff, sg.Mutate, sg.Replay = nonce, int64(off/time.Second), "", replay
+					c.Sign = &sg
+					return Step{Op: "ingress", Req: &c}
+				}
+				p.Steps = append(p.Steps, mk("nx", 0, 0), mk("n1", -(tol - d1), 0), Step{Op: "advance", D: d1 + time.Second}, mk("n1", 0, 0),
+					Step{Op: "advance", D: tol - d1}, mk("n1", 0, 1))
 			}
 		case k < 18 || !prof.Reload:
 			p.Steps = append(p.Steps, Step{Op: "advance", D: rapid.SampledFrom(advances).Draw(t, "d")})
